@@ -17,6 +17,10 @@
       no datagram is delivered twice; contents intact;
     - no operation completes twice, none completes without a live future;
     - no operation fails with a connection error before anybody closed;
+    - 0-RTT (C17, scenarios with param 44): after a rejection every operation on a handle created
+      during 0-RTT fails with ZeroRttRejected, fresh streams that reuse the ids deliver exactly
+      their own bytes (the integrity rules above, keyed by connection), a read never reports
+      ClosedStream for a stream this side did not stop;
     - teardown: the run ends quiescent with every application task and every driver finished, and
       the endpoints' bookkeeping ([senders], [open_connections]) back to 0.
     Known finding [stopped-after-reset] (param 902 = 1): a stopped() future pending while the
@@ -34,6 +38,17 @@ Fixpoint zrem (x : Z) (l : list Z) : list Z :=
 Definition zadd (x : Z) (l : list Z) : list Z := if zmem x l then l else x :: l.
 Definition getd {A} (m : list (key * A)) (k : key) (d : A) : A :=
   match aget m k with Some v => v | None => d end.
+
+(** handles created during a REJECTED 0-RTT phase are logged under the alias sid + 2^40 *)
+Definition ALIAS : Z := 1099511627776.
+Definition real_sid (sid : Z) : Z := if Z.leb ALIAS sid then sid - ALIAS else sid.
+Definition is_early (sid : Z) : bool := Z.leb ALIAS sid.
+(** flags kept in [m_reset] under special keys *)
+Definition K_ZR_TRIED : key := (-1, 0).          (* into_0rtt() succeeded *)
+Definition K_ZR_REJ : key := (-3, 0).            (* some operation reported ZeroRttRejected *)
+Definition k_marker (ep : Z) : key := (-2, ep).  (* the handshake of that connection is over *)
+Definition k_stopped (ep sid : Z) : key := (100 + ep, sid).   (* stop() called locally *)
+Definition has {A} (m : list (key * A)) (k : key) : bool := match aget m k with Some _ => true | None => false end.
 
 (** operation kinds *)
 Definition K_READ := 7. Definition K_WRITE := 8. Definition K_STOPPED := 9.
@@ -123,6 +138,7 @@ Definition wake_ok (s : ms) (e : key * (Z * Z * Z)) : bool :=
   let sn := getd (m_snap s) (k1 ep) [] in
   if negb (snap_alive sn) then true else
   let '(brs, bws, sts) := snap_sets sn in
+  let sid := real_sid sid in
   if Z.eqb kind K_READ || Z.eqb kind K_READ_TO_END then zmem sid brs
   else if Z.eqb kind K_WRITE || Z.eqb kind K_WRITE_ALL then zmem sid bws
   else if Z.eqb kind K_STOPPED || Z.eqb kind 17 then zmem sid sts
@@ -144,9 +160,11 @@ Definition drv_ok (s : ms) (ep : Z) : bool :=
   end.
 
 Definition step_end_ok (s : ms) : bool :=
-  forallb (wake_ok s) (m_pend s) && ref_ok s 0 && ref_ok s 1 && drv_ok s 0 && drv_ok s 1.
+  forallb (wake_ok s) (m_pend s) && ref_ok s 0 && ref_ok s 1 && drv_ok s 0 && drv_ok s 1
+  && ref_ok s 2 && ref_ok s 3 && drv_ok s 2 && drv_ok s 3.
 
-Definition peer (ep : Z) : Z := 1 - ep.
+(** virtual endpoints: endpoint + 2 * connection index; the peer of 0 is 1, of 2 is 3 *)
+Definition peer (ep : Z) : Z := if Z.even ep then ep + 1 else ep - 1.
 
 Definition result_rec (s : ms) (r : list Z) : option ms :=
   let opid := fld r 3 in let res := fld r 4 in let a := fld r 5 in let b := fld r 6 in let ok := fld r 7 in
@@ -157,7 +175,18 @@ Definition result_rec (s : ms) (r : list Z) : option ms :=
       let ep := o_ep oi in let sid := o_sid oi in let kind := o_kind oi in
       (* a connection error before anybody closed (an idle timeout is possible on a lossy link) *)
       if Z.leb 10 res && Z.ltb res 20 && negb (m_closing s) && negb (m_lossy s && Z.eqb res 16) then None else
+      (* C17: after a rejected 0-RTT phase every operation on an early handle fails with
+         ZeroRttRejected (22 for writes, 23 for reads / stopped) — never data, never ClosedStream *)
+      if is_early sid && has (m_reset s) (k_marker ep)
+         && negb (Z.eqb res (if Z.eqb kind K_WRITE || Z.eqb kind K_WRITE_ALL then 22 else 23)) then None else
+      (* before the handshake is over an early operation may succeed or be rejected, nothing else *)
+      if is_early sid && negb (Z.eqb res 0 || Z.eqb res 1 || Z.eqb res 22 || Z.eqb res 23 || (Z.leb 10 res && Z.ltb res 20)) then None else
+      (* ClosedStream from a read although this side never stopped the stream *)
+      if (Z.eqb kind K_READ || Z.eqb kind K_READ_TO_END) && Z.eqb res 21 && negb (has (m_reset s) (k_stopped ep sid)) then None else
       (* an idle timeout can only happen on a lossy link *)
+      let s := if (Z.eqb res 22 && (Z.eqb kind K_WRITE || Z.eqb kind K_WRITE_ALL)) || (Z.eqb res 23 && negb (Z.eqb kind K_WRITE || Z.eqb kind K_WRITE_ALL))
+               then upd_data s (m_wr s) (m_rd s) (m_fin s) (aset (m_reset s) K_ZR_REJ 1) (m_dg s) (m_closing s) (m_ep_ok s) (m_ended s)
+               else s in
       if Z.eqb res 16 && negb (m_lossy s) then None else
       if negb (Z.eqb ok 1) then None else
       if Z.eqb kind K_WRITE || Z.eqb kind K_WRITE_ALL then
@@ -294,12 +323,30 @@ Definition step (s : ms) (r : list Z) : option ms :=
                         m_lossy := true; m_wall := m_wall s |}
                      (m_wr s) (m_rd s) (m_fin s) (m_reset s) (m_dg s) true (m_ep_ok s) (m_ended s))
     else Some s
-  else if Z.eqb tg 29 || Z.eqb tg 35 || Z.eqb tg 38 then Some s
+  else if Z.eqb tg 35 then (* STOP *)
+    let ep := getd (m_tep s) (k1 (fld r 2)) (-1) in
+    Some (upd_data s (m_wr s) (m_rd s) (m_fin s) (aset (m_reset s) (k_stopped ep (fld r 3)) 1) (m_dg s) (m_closing s) (m_ep_ok s) (m_ended s))
+  else if Z.eqb tg 41 then (* the handshake of a 0-RTT connection is over: [41,t,task,vep,mode] *)
+    Some (upd_data s (m_wr s) (m_rd s) (m_fin s) (aset (m_reset s) (k_marker (fld r 3)) 1) (m_dg s) (m_closing s) (m_ep_ok s) (m_ended s))
+  else if Z.eqb tg 43 then (* into_0rtt(): [43,t,task,vep,ok] *)
+    if Z.eqb (fld r 4) 1
+    then Some (upd_data s (m_wr s) (m_rd s) (m_fin s) (aset (m_reset s) K_ZR_TRIED 1) (m_dg s) (m_closing s) (m_ep_ok s) (m_ended s))
+    else Some s
+  else if Z.eqb tg 29 || Z.eqb tg 38 || Z.eqb tg 44 then Some s
   else None.
 
 Definition monitor (i : ops) (tr : outs) : option Z :=
   let '(s, r) := run_from step 0 (init_ms (Z.eqb (param i 902 0) 1) (Z.eqb (param i 31 0) 1) (Z.ltb 0 (param i 2 0))) tr in
   match r with
   | Some k => Some k
-  | None => if m_ended s then None else Some (Z.of_nat (length tr))
+  | None =>
+      if negb (m_ended s) then Some (Z.of_nat (length tr))
+      (* a 0-RTT scenario (param 44) on a loss-free link must actually have started with 0-RTT *)
+      else if Z.ltb 0 (param i 44 0) && Z.eqb (param i 2 0) 0 && negb (has (m_reset s) K_ZR_TRIED)
+      then Some (Z.of_nat (length tr))
+      (* the server kept its configuration: nothing may report ZeroRttRejected; it was replaced:
+         the early handles must have reported it *)
+      else if Z.eqb (param i 44 0) 1 && has (m_reset s) K_ZR_REJ then Some (Z.of_nat (length tr))
+      else if Z.eqb (param i 44 0) 2 && has (m_reset s) K_ZR_TRIED && negb (has (m_reset s) K_ZR_REJ)
+      then Some (Z.of_nat (length tr)) else None
   end.
